@@ -153,12 +153,13 @@ def r2_cleanup_loop(run, w):
   if uvar is None:
     raise AnalysisError("doBulkRemoveRecord: the reported updates are not bound to a local")
   same_rows = lambda x, d: isinstance(x, str) and x == rows_var and d in rows_defs
-  asked = H.whole_of(fn, rd, uc.args[0], un.id, same_rows,
+  uc_n = H.norm(w, fn, uc)
+  asked = H.whole_of(fn, rd, uc_n.args[0], un.id, same_rows,
                      wrappers=("set", "frozenset", "list", "tuple", "sorted")) \
-      if len(uc.args) == 1 and not uc.keywords and rows_var else False
+      if len(uc_n.args) == 1 and not uc_n.keywords and rows_var else False
   if asked is None:
     raise AnalysisError("doBulkRemoveRecord: cannot relate %s to the removed rows"
-                        % short(uc.args[0]))
+                        % short(uc_n.args[0]))
   recv = H.deref(fn, uc.func.value)
   ok = isinstance(recv, ast.Name) and recv.id == var and asked
   run.ob(R2, fn.qualname, short(un.stmt), "each referring column is asked for its updates for "
@@ -203,8 +204,8 @@ def r2_cleanup_loop(run, w):
         targs = [H.arg_of(c, hfi, p) for p in hfi.params()[1:4]]
       except AnalysisError:
         targs = None
-    elif E.is_strict_gateway_call(c, nm, fn) and c.args:
-      r = E.action_ctor(H.deref(fn, c.args[0]), names)
+    elif E.is_strict_gateway_call(c, nm, fn) and H.norm(w, fn, c).args:
+      r = E.action_ctor(H.deref(fn, H.norm(w, fn, c).args[0]), names)
       if r and r[0] == "BulkUpdateRecord" and H.action_nargs(r[1]) == 3:
         targs = [H.action_arg(r[1], names, r[0], i) for i in range(3)]
     if targs and all(a is not None for a in targs) and \
@@ -217,8 +218,8 @@ def r2_cleanup_loop(run, w):
   def emits(c, nm, f):
     if nm == "self._BulkUpdateRecord_decoded":
       return True
-    if E.is_strict_gateway_call(c, nm, f) and c.args:
-      r = E.action_ctor(H.deref(f, c.args[0]), names)
+    if E.is_strict_gateway_call(c, nm, f) and H.norm(w, f, c).args:
+      r = E.action_ctor(H.deref(f, H.norm(w, f, c).args[0]), names)
       return bool(r and r[0] == "BulkUpdateRecord")
     return False
   for (n, c, nm) in fn.calls():
@@ -256,13 +257,13 @@ def r2_cleanup_loop(run, w):
     src = H.strip_wrappers(g.iter)
     from_index = gdu.flows_from(
       lambda x: isinstance(x, ast.Call) and endswith(gu.name(x), "self._relation.get_affected_rows")
-      and len(x.args) == 1 and H.canon(gu, x.args[0]) == p, src)
+      and len(H.norm(w, gu, x).args) == 1 and H.canon(gu, H.norm(w, gu, x).args[0]) == p, src)
     filtered = isinstance(src, (ast.ListComp, ast.GeneratorExp, ast.SetComp, ast.Subscript))
     ok = not g.ifs and from_index and not filtered and isinstance(elt, ast.Tuple) and \
         len(elt.elts) == 2 and \
         text(elt.elts[0]) == text(g.target) and isinstance(elt.elts[1], ast.Call) and \
         gu.name(elt.elts[1]) == "self._raw_get_without" and \
-        [H.canon(gu, a) for a in elt.elts[1].args] == [text(g.target), p]
+        [H.canon(gu, a) for a in H.norm(w, gu, elt.elts[1]).args] == [text(g.target), p]
   elif not (len(rets) == 1 and rets[0][1] is not None):
     raise AnalysisError("get_updates_for_removed_target_rows: returned value not recognised")
   run.ob(R2, gu.qualname, "[(row, self._raw_get_without(row, removed)) for row in "
@@ -393,6 +394,9 @@ VARIANTS = [(a, b, c, d, "C10-R1") for (a, b, c, d) in C09_R1_VARIANTS] + [
 
     # Also remove any references to these rows from other tables.
 """, "C10-R2"),
+  ("updates-of-private-columns-not-emitted", U,
+   "      if updates:\n        table_id = ref_col.table_id\n",
+   "      if updates and not ref_col.is_private():\n        table_id = ref_col.table_id\n", "C10-R2"),
   ("stale-table-after-rebinding", U,
    "    table = self._engine.tables[table_id]\n    assert all(isinstance(r, (int, table.Record)) for r in row_ids_or_records)\n    row_ids = [int(r) for r in row_ids_or_records]",
    "    table = self._engine.tables[table_id]\n    assert all(isinstance(r, (int, table.Record)) for r in row_ids_or_records)\n    row_ids = [int(r) for r in row_ids_or_records]\n    table = self._engine.tables.get('_grist_Tables', table)",
